@@ -56,7 +56,10 @@ def gen_def(rng, pool, depth=0):
             fields.append((fn, d, cnt, order))
         else:
             fields.append((fn, rng.choice(list(RAW)), 0, order))
-    return Def(name, kind, packed, fields)
+    d = Def(name, kind, packed, fields)
+    # the sub-fields of a bit-field group written one per line (merged by the definition language while they fit the unit)
+    d.perline = rng.random() < 0.4
+    return d
 
 
 def amoco_fmt(d):
@@ -65,6 +68,9 @@ def amoco_fmt(d):
         if isinstance(t, Def):
             tn = t.name + ("*%d" % cnt if cnt else "")
             lines.append("%s : %s" % (tn, fn))
+        elif isinstance(t, tuple) and getattr(d, "perline", False):
+            for w_, n_ in zip(t[2], t[3]):
+                lines.append("%s*#%d : %s%s" % (t[1], w_, order if order == ">" else "", n_))
         elif isinstance(t, tuple):
             lines.append("%s*#%s : %s%s" % (t[1], "/".join(map(str, t[2])), order if order == ">" else "", "/".join(t[3])))
         elif t == "s":
